@@ -21,7 +21,7 @@ RULE = ("a history = (import order, id-counter bumps per prefix SYM/FUN/QTY/VEC/
 ASSUMPTIONS = ["PYTHONHASHSEED is fixed (hash-seed dependence is not part of the property)",
                "numeric fingerprints use fixed smooth stand-ins for undefined functions",
                "a dependence that needs one specific counter value outside the swept patterns is missed"]
-MIN_REACH = {"quick": {"histories": 14, "modules_compared": 8000, "equations_compared": 8000, "probes_compared": 1500, "isolated": 30},
+MIN_REACH = {"quick": {"boundary_reimports": 600, "histories": 14, "modules_compared": 8000, "equations_compared": 8000, "probes_compared": 1500, "isolated": 30},
              "thorough": {"histories": 60, "modules_compared": 40000, "isolated": 600}}
 SHARD_TIMEOUT = {"quick": 900, "thorough": 3000}
 PREFIXES = ["SYM", "FUN", "QTY", "VEC", "SYS", ""]
@@ -56,6 +56,15 @@ def plan(tier, seed):
         specs.append({"_label": h["name"], "kind": "full", "history": h, "seed": seed, "probe_every": 4 if tier == "quick" else 1})
     r = harness.rng_for("C03iso", seed)
     iso = r.sample(names, 48) if tier == "quick" else list(names)
+    # digit-boundary sweep: each module body is re-executed with the counters placed so that its j-th own symbol is the last
+    # one before 10^3, 10^4, ... (names cross a digit-count boundary *inside* the module)
+    bmods = list(names)
+    kb = 16
+    for i in range(kb):
+        part = bmods[i::kb]
+        if part:
+            specs.append({"_label": f"boundary{i}", "kind": "boundary", "modules": part, "seed": seed,
+                          "offsets": [0] if tier == "quick" else [0, 1, 2, 3]})
     # isolated modules: batches of fresh processes are expensive; one process per module, grouped per shard sequentially
     k = 16
     for i in range(k):
@@ -274,6 +283,8 @@ def work(spec, rec):
             observe_module(name, rec, probe=(digest % spec["probe_every"] == 0), out=out)
         rec.extra["observations"] = {h["name"]: out}
         rec.extra["ids"] = {h["name"]: {"start": start_ids, "end": dict(id_generator._ids)}}
+    elif spec["kind"] == "boundary":
+        boundary_sweep(spec, rec)
     else:
         # isolated: each module imported alone in its own fresh interpreter
         import subprocess
@@ -298,6 +309,67 @@ def work(spec, rec):
                 except OSError:
                     pass
         rec.extra["isolated"] = res
+
+
+def boundary_chunk(modules, j):
+    """one fresh process: the i-th module body is re-executed with SYM/FUN/QTY counters placed so that its (j+1)-th own
+    symbol is the last one with i+3 digits (counters only ever move forward, so every name stays unique)"""
+    import sys
+    import symplyphysics  # noqa
+    from symplyphysics.core.symbols import id_generator
+    from vf import harness as H
+    res = {}
+    for i, name in enumerate(modules):
+        first = {}
+        observe_module(name, H.Rec(), False, first)
+        base = first.get(name, {"import": "?"})
+        entry = {"first": base, "re": []}
+        if base.get("import") == "ok":
+            target = 10 ** (i + 3) - 2 - j
+            if all(id_generator._ids.get(p, 0) < target for p in ("SYM", "FUN", "QTY")):
+                for p in ("SYM", "FUN", "QTY"):
+                    id_generator._ids[p] = target
+                mod = sys.modules.pop(name, None)
+                out = {}
+                observe_module(name, H.Rec(), False, out)
+                o = out.get(name, {"import": "?"})
+                o["counter"] = target
+                entry["re"].append(o)
+                if o.get("import") != "ok" and mod is not None:
+                    sys.modules[name] = mod
+        res[name] = entry
+    return res
+
+
+def boundary_sweep(spec, rec):
+    import subprocess
+    import sys
+    import os
+    import tempfile
+    res = {}
+    mods = spec["modules"]
+    for j in spec.get("offsets", [0]):
+        for c in range(0, len(mods), 7):
+            chunk = mods[c:c + 7]
+            rec.checkpoint(30)
+            with tempfile.NamedTemporaryFile("r", suffix=".json", delete=False) as tf:
+                path = tf.name
+            code = ("import json\nfrom vf.checks import c03\n"
+                    f"json.dump(c03.boundary_chunk({chunk!r}, {j}), open({path!r}, 'w'))\n")
+            try:
+                subprocess.run([sys.executable, "-c", code], env=harness.worker_env(), timeout=900, capture_output=True, check=False)
+                with open(path) as f:
+                    part = json.load(f)
+                for name, entry in part.items():
+                    res.setdefault(name, {"first": entry["first"], "re": []})["re"].extend(entry["re"])
+            except Exception as x:  # pylint: disable=broad-except
+                rec.inconc("boundary chunk process failed: " + type(x).__name__)
+            finally:
+                try:
+                    os.unlink(path)
+                except OSError:
+                    pass
+    rec.extra["boundary"] = res
 
 
 def close_num(a, b):
@@ -390,6 +462,13 @@ def finalize(merged, tier, seed, results):
             samples.append({"history": hname, "ids": ids.get(hname), "modules": len(o), "import_failures": [n for n, m in o.items() if m["import"] != "ok"][:5]})
     for name, m in iso.items():
         compare("isolated", name, m, canon_obs.get(name) if canon_obs else None)
+    bnd = merged["extra"].pop("boundary", {})
+    stats["boundary_reimports"] = 0
+    for name, entry in bnd.items():
+        ref = entry["first"]
+        for o in entry["re"]:
+            stats["boundary_reimports"] += 1
+            compare(f"boundary@{o.get('counter')}", name, o, ref)
     if canon_obs is None:
         inconc["canonical history produced no result"] = 1
     merged["violations"].extend(viol)
